@@ -429,27 +429,28 @@ Lemma sort_list_tab' v lr : v_tab (sort_list v lr) = v_tab v.
 Proof. unfold sort_list. destruct (get_blist v lr); [apply set_blist_tab|reflexivity]. Qed.
 
 Lemma try_blocks_align (Hc : cfg_ok c) bids : forall v U X lr size align flags sub s v',
-  VamInvU c v U X -> Bits.pow2 align -> 0 <= s < zlen (v_tab v) -> a_allocated (get_alloc v s) = false ->
+  VamInvU c v U X -> Bits.pow2 align -> min_ok v lr align -> 0 <= s < zlen (v_tab v) -> a_allocated (get_alloc v s) = false ->
   try_blocks c v lr bids size align flags sub s = (v', AFOk) -> placed v' lr align [s].
 Proof.
-  induction bids as [|bid tl IH]; intros v U X lr size align flags sub s v' HI Hal Hs Hd E; cbn [try_blocks] in E; [discriminate|].
-  pose proof (alloc_from_block_inv c v U X lr bid size align flags sub s HI Hal Hs Hd) as P.
+  induction bids as [|bid tl IH]; intros v U X lr size align flags sub s v' HI Hal Hmin Hs Hd E; cbn [try_blocks] in E; [discriminate|].
+  pose proof (alloc_from_block_inv c v U X lr bid size align flags sub s HI Hal Hmin Hs Hd) as P.
   destruct (alloc_from_block c v lr bid size align flags sub s) as (v1 & r) eqn:Ea. destruct r; try discriminate.
   - injection E as <-. destruct (alloc_from_block_align _ _ _ _ _ _ _ _ _ Ea Hs) as (A & B & C0).
     intros x [<-|[]]. unfold get_alloc in *. rewrite sort_list_tab'. auto.
-  - cbn [af_post] in P. destruct P as (I1 & T1 & _ & D1). eapply IH; eauto. destruct T1 as (Ez & _). lia.
+  - cbn [af_post] in P. destruct P as (I1 & T1 & L1 & D1). eapply IH; eauto; [eapply min_ok_frame; eauto|]. destruct T1 as (Ez & _). lia.
 Qed.
 
 Lemma alloc_page_align (Hc : cfg_ok c) v U X lr size align flags sub s v' :
-  VamInvU c v U X -> Bits.pow2 align -> 0 <= s < zlen (v_tab v) -> a_allocated (get_alloc v s) = false ->
+  VamInvU c v U X -> Bits.pow2 align -> min_ok v lr align -> 0 <= s < zlen (v_tab v) -> a_allocated (get_alloc v s) = false ->
   alloc_page c v lr size align flags sub s = (v', OK tt) -> placed v' lr align [s].
 Proof.
-  intros HI Hal Hs Hd. unfold alloc_page. destruct (get_blist v lr) as [l|] eqn:Hg; [|discriminate].
+  intros HI Hal Hmin Hs Hd. unfold alloc_page. destruct (get_blist v lr) as [l|] eqn:Hg; [|discriminate].
   pose proof (heap_budget_same c (v_m v) (type_heap c (bl_type l))) as Hb.
   destruct (heap_budget c (v_m v) (type_heap c (bl_type l))) as ((m1 & usage) & budget). cbn [fst] in Hb.
   destruct (_ && _); [discriminate|]. destruct (bl_pref l <? size); [discriminate|].
   assert (I1 : VamInvU c (set_m v m1) U X) by (apply VamInvU_mach_same; auto).
-  pose proof (try_blocks_inv c (search_order c l flags) (set_m v m1) U X lr size align flags sub s I1 Hal Hs Hd) as TB.
+  assert (Hmin1 : min_ok (set_m v m1) lr align) by (eapply min_ok_frame; [apply lists_frame_set_m|exact Hmin]).
+  pose proof (try_blocks_inv c (search_order c l flags) (set_m v m1) U X lr size align flags sub s I1 Hal Hmin1 Hs Hd) as TB.
   pose proof (try_blocks_align Hc (search_order c l flags) (set_m v m1) U X lr size align flags sub s) as TA.
   destruct (try_blocks c (set_m v m1) lr (search_order c l flags) size align flags sub s) as (v2 & r).
   destruct r; try discriminate.
@@ -482,23 +483,23 @@ Proof.
 Qed.
 
 Lemma allocate_loop_align (Hc : cfg_ok c) slots : forall v U X lr done size align flags sub v' done',
-  VamInvU c v U X -> Bits.pow2 align -> NoDup (slots ++ done) -> dead_slots v slots -> placed v lr align done ->
+  VamInvU c v U X -> Bits.pow2 align -> min_ok v lr align -> NoDup (slots ++ done) -> dead_slots v slots -> placed v lr align done ->
   allocate_loop c v lr slots done size align flags sub = (v', OK tt, done') -> placed v' lr align (slots ++ done).
 Proof.
-  induction slots as [|s tl IH]; intros v U X lr done size align flags sub v' done' HI Hal Hnd Hdead Hpl E; cbn [allocate_loop] in E.
+  induction slots as [|s tl IH]; intros v U X lr done size align flags sub v' done' HI Hal Hmin Hnd Hdead Hpl E; cbn [allocate_loop] in E.
   - injection E as <- _. exact Hpl.
   - destruct (Hdead s (or_introl eq_refl)) as (Hr & Hd). cbn [app] in Hnd. inversion Hnd as [|? ? Hns Hnd']; subst.
-    pose proof (alloc_page_inv c Hc v U X lr size align flags sub s HI Hal Hr Hd) as AP.
+    pose proof (alloc_page_inv c Hc v U X lr size align flags sub s HI Hal Hmin Hr Hd) as AP.
     pose proof (alloc_page_align Hc v U X lr size align flags sub s) as AA.
     destruct (alloc_page c v lr size align flags sub s) as (v1 & r). destruct r as [[]|code| |]; try discriminate.
-    cbn [ap_post] in AP. destruct AP as (I1 & T1 & _ & _). specialize (AA v1 HI Hal Hr Hd eq_refl).
+    cbn [ap_post] in AP. destruct AP as (I1 & T1 & L1 & _). specialize (AA v1 HI Hal Hmin Hr Hd eq_refl).
     assert (Hpl1 : placed v1 lr align (s :: done)).
     { intros x [<-|Hx]; [apply AA; left; reflexivity|]. rewrite (get_alloc_frame _ _ _ _ T1); [apply Hpl; exact Hx|].
       intros [<-|[]]. apply Hns. apply in_app_iff. auto. }
     assert (Hd1 : dead_slots v1 tl).
     { eapply dead_slots_frame; [intros s1 H1; apply Hdead; right; exact H1|exact T1|]. intros s1 H1 [<-|[]]. apply Hns. apply in_app_iff. auto. }
     assert (Hnd1 : NoDup (tl ++ s :: done)) by (eapply Permutation.Permutation_NoDup; [apply Permutation.Permutation_middle|constructor; auto]).
-    specialize (IH v1 U X lr (s :: done) size align flags sub v' done' I1 Hal Hnd1 Hd1 Hpl1 E).
+    specialize (IH v1 U X lr (s :: done) size align flags sub v' done' I1 Hal (min_ok_frame _ _ _ _ L1 Hmin) Hnd1 Hd1 Hpl1 E).
     intros x Hx. apply IH. cbn in Hx. apply in_app_iff. destruct Hx as [<-|Hx]; [right; left; reflexivity|].
     apply in_app_iff in Hx. destruct Hx; [left; auto|right; right; auto].
 Qed.
@@ -519,7 +520,9 @@ Proof.
     destruct Hal as [->|H']; [apply Z.ltb_ge in E; lia|auto]. }
   pose proof (allocate_loop_align Hc slots v U X lr [] size (Z.max align0 (bl_minalign l)) flags sub) as AL.
   destruct (allocate_loop c v lr slots [] size _ flags sub) as ((v1 & r) & done). destruct r as [[]|code| |]; try discriminate.
-  - intros E. injection E as <-. specialize (AL v1 done HI Hal' ltac:(rewrite app_nil_r; exact Hnd) Hdead ltac:(intros ? []) eq_refl).
+  - intros E. injection E as <-.
+    assert (Hmin0 : min_ok v lr (Z.max align0 (bl_minalign l))) by (intros l' G'; rewrite Hg in G'; injection G' as <-; lia).
+    specialize (AL v1 done HI Hal' Hmin0 ltac:(rewrite app_nil_r; exact Hnd) Hdead ltac:(intros ? []) eq_refl).
     rewrite app_nil_r in AL. exact AL.
   - destruct (unwind_loop c v1 lr done) as (v2 & ur). destruct ur as [[]|uc| |]; try discriminate.
     destruct (release_empty_since c v2 lr (bl_next l)) as (v3 & rr). destruct rr; discriminate.
